@@ -438,3 +438,11 @@ def replay(spec):
         fails.append('direction %d (%s): the eps^1 dt^1 defect of the corrected INS state, row %s, is %.3g (tolerance %.3g; documented neglected term %.3g already removed): the model column is not the linearisation of the integrator'
                      % (k, res['name'], ['north', 'east', 'down', 'VN', 'VE', 'VD', 'roll', 'pitch', 'heading'][i], res['defect'][i], res['tol'][i], res['neglected'][i]))
     return {'violated': bool(fails), 'detail': fails}
+
+
+RIM = {'lat': -84.6, 'lon': 150.0, 'alt': 15000.0, 'VN': 250.0, 'VE': -200.0, 'VD': 5.0, 'roll': 120.0, 'pitch': -60.0, 'heading': -170.0}
+
+
+def FALLBACK(tier):
+    """numeric oracle specs put to the compiled code when the symbolic run is inconclusive (main.py)"""
+    return [{'check': 'defect', 'point': p, 'params': {'wa': wa, 'dir': d}} for wa in (True, False) for d in ((0, 2, 4, 7, 10, 13) if wa else (1, 3, 5, 8)) for p in ({}, RIM)] + [{'check': 'propagate', 'point': {}, 'params': {'wa': wa}} for wa in (True, False)]
